@@ -16,6 +16,8 @@ func registerModels(in *Interp) {
 	registerSandboxModels(in)
 	registerCLIModels(in)
 	registerStoreCommon(in)
+	registerPebbleModel(in)
+	registerPebbleHarnessHelpers(in)
 }
 
 // ---------------------------------------------------------------- path / file-system stubs
